@@ -5,14 +5,30 @@ Under contract (real code, re-read on every run)
   _pdb_charge_to_int_str     PDB charge text ('2+', '1-', also '+2' / '-1') -> the signed integer text mmCIF carries
   write_cif@rows             PREFIX contract (up to, not including, the construction of the mmcif DataCategory): the item names
                              `attributes` and, for every table row i, the list rows[i] of item texts - which column feeds which
-                             atom_site item, what is written for an absent value
-The tail of write_cif (DataCategory / DataContainer / IoAdapterPy.writeFile / temporary file) is the mmcif library's writer: trusted.
+                             atom_site item, what is written for an absent value (a null marker '?' / '.')
+  parse_cif_atoms@decode, @decode_stringio, @decode_file
+                             one PREFIX contract for the three input forms (str / io.StringIO / open file with a name; up to, not
+                             including, `df = pd.DataFrame(records)`): relative to
+                             the document the mmcif reader returns (ghost parameters NB, HAS, ATTRS, ROWS) `records` holds one
+                             dict per atom_site row, item name -> cell text, None for the null markers, no other keys
+Lemmas (kind "smt": proved)
+  pdb_row_through_cif        one row of a PDB-format table -> the 21 items of write_cif@rows -> the record of parse_cif_atoms@decode
+                             holds the row's fields under the mmCIF item names
+  cif_row_through_cif        the same for a row of an mmCIF-format table (column by column)
+  pdb_atom_back_from_cif     ... and the atom write_pdb reads (spec atom_cif of parser_v2_write_c) from the table row built from that
+                             record is the atom of the PDB-format row (numbers to 0.0005 / 0.005, charge as signed integer text)
+  signed_text_value, signed_digit_canonical, int_ok_of_str, charge_text_back     string / integer text helpers
+ASSUMED lemmas: fmt3_roundtrip / fmt2_roundtrip (CPython float formatting / parsing).
+TRUSTED, not verified: the tail of write_cif (DataCategory / DataContainer / IoAdapterPy.writeFile / temporary file: the mmcif
+library's writer), the head of parse_cif_atoms as far as it is the mmcif reader (readFile: modelled as "returns the ghost
+document"), and the pandas tail of parse_cif_atoms (DataFrame construction, to_numeric / astype: pandas from there to the end;
+its assumed effect on one row is the spec frame_holds_record, a hypothesis of lemma pdb_atom_back_from_cif).
 
 Abstraction of pandas: the one of contracts/parser_v2_write_c.py (Frame / Row / Cell, uninterpreted has_col / cell_of / cell_isna /
 cell_str / cell_int / cell_float), extended by
   df.columns          the list of column names (field `columns` of Frame); has_col(df, name) holds for each of them (requires)
   row[key]            the cell of column key; KeyError when the table lacks the column
-  row.get(key)        also for a computed key (the loop over `attributes`)
+  row.get(key)        also for a computed key (the loop over `attributes`): the cell, None when the table lacks the column
 """
 import z3 as _z3
 
@@ -143,12 +159,6 @@ def signed_text_sign_first(t):
     return ite(t[0:1] == "-", "-", "") + t[1:2]
 
 
-@spec
-def pdb_charge_value(t):
-    """the signed integer a PDB charge text (digit, sign) stands for: '2+' = 2, '1-' = -1"""
-    return ite(t[1:2] == "-", 0 - int(t[0:1]), int(t[0:1]))
-
-
 LEMMAS["signed_text_value"] = {
     # the text written for a PDB charge is an optionally negated digit and spells the integer the PDB text stands for
     "kind": "smt", "params": ["t"], "shapes": ["str"], "requires": ["matches(t, DIGIT_SIGN)"],
@@ -207,24 +217,44 @@ def charge_item(c, s):
 
 
 @spec
+def items_record_entity(r, R):
+    """group_PDB = record name; label_entity_id = some text (generated, not a table field)"""
+    return len(R) == 21 and R[0] == cstr(cell(r, "record_type")) and not null_marker(R[7])
+
+
+@spec
+def items_names(r, R):
+    """atom name, residue name and chain fill the label_* and the auth_* item alike"""
+    return (R[3] == cstr(cell(r, "name")) and R[19] == cstr(cell(r, "name")) and R[5] == cstr(cell(r, "resName")) and R[17] == cstr(cell(r, "resName"))
+            and R[6] == cstr(cell(r, "chainID")) and R[18] == cstr(cell(r, "chainID")))
+
+
+@spec
+def items_integers(r, R):
+    """id = serial, label_seq_id = auth_seq_id = residue number, pdbx_PDB_model_num = model, as decimal texts"""
+    return (R[1] == str(cint(cell(r, "serial"))) and R[8] == str(cint(cell(r, "resSeq"))) and R[16] == str(cint(cell(r, "resSeq")))
+            and R[20] == str(cint(cell(r, "model"))))
+
+
+@spec
+def items_optional_texts(r, R):
+    """type_symbol = element, label_alt_id = altLoc, pdbx_PDB_ins_code = iCode; a null marker when missing"""
+    return text_or_null(cell(r, "element"), R[2]) and text_or_null(cell(r, "altLoc"), R[4]) and text_or_null(cell(r, "iCode"), R[9])
+
+
+@spec
+def items_reals(r, R):
+    """Cartn_x/y/z with three decimals, occupancy and B_iso_or_equiv with two"""
+    return (R[10] == fmt3(cfloat(cell(r, "x"))) and R[11] == fmt3(cfloat(cell(r, "y"))) and R[12] == fmt3(cfloat(cell(r, "z")))
+            and R[13] == fmt2(cfloat(cell(r, "occupancy"))) and R[14] == fmt2(cfloat(cell(r, "tempFactor"))))
+
+
+@spec
 def items_of_pdb_row(r, R):
     """R is the atom_site row written for row r of a table in the PDB column naming: item by item (order PDB_ITEMS) the fields
-    of r.  Residue number, residue name, chain and atom name fill the label_* and the auth_* item alike."""
-    return (len(R) == 21
-            and R[0] == cstr(cell(r, "record_type"))
-            and R[1] == str(cint(cell(r, "serial")))
-            and text_or_null(cell(r, "element"), R[2])
-            and R[3] == cstr(cell(r, "name")) and R[19] == cstr(cell(r, "name"))
-            and text_or_null(cell(r, "altLoc"), R[4])
-            and R[5] == cstr(cell(r, "resName")) and R[17] == cstr(cell(r, "resName"))
-            and R[6] == cstr(cell(r, "chainID")) and R[18] == cstr(cell(r, "chainID"))
-            and not null_marker(R[7])
-            and R[8] == str(cint(cell(r, "resSeq"))) and R[16] == str(cint(cell(r, "resSeq")))
-            and text_or_null(cell(r, "iCode"), R[9])
-            and R[10] == fmt3(cfloat(cell(r, "x"))) and R[11] == fmt3(cfloat(cell(r, "y"))) and R[12] == fmt3(cfloat(cell(r, "z")))
-            and R[13] == fmt2(cfloat(cell(r, "occupancy"))) and R[14] == fmt2(cfloat(cell(r, "tempFactor")))
-            and charge_item(cell(r, "charge"), R[15])
-            and R[20] == str(cint(cell(r, "model"))))
+    of r"""
+    return (items_record_entity(r, R) and items_names(r, R) and items_integers(r, R) and items_optional_texts(r, R) and items_reals(r, R)
+            and charge_item(cell(r, "charge"), R[15]))
 
 
 @spec
@@ -284,21 +314,449 @@ class write_cif_rows_c:
             "ite(is_cif(df), len(attributes) == len(df.columns) and forall(lambda k: implies(0 <= k and k < len(df.columns), attributes[k] == df.columns[k])), is_pdb_items(attributes))",
             "forall(lambda i: implies(0 <= i and i < n and not is_cif(df), items_of_pdb_row(trow(df, i), rows[i])))",
             "forall(lambda i: implies(0 <= i and i < n and is_cif(df), items_of_cif_row(df, trow(df, i), rows[i])))",
-        ]},
+        ], "labels": {0: "one-atom_site-row-per-table-row-so-far", 1: "item-names-are-the-mmCIF-columns-or-the-21-items-for-a-PDB-table",
+                      2: "PDB-table-row-i-item-by-item", 3: "mmCIF-table-row-i-column-by-column"}},
         1: {"index": "m", "inv": [
             "m >= 0 and len(row_data) == m and is_cif(df)",
             "forall(lambda k: implies(0 <= k and k < m, text_or_null(cell(trow(df, n), df.columns[k]), row_data[k])))",
-        ]},
+        ], "labels": {0: "one-item-per-column-so-far", 1: "item-k-is-column-k-of-this-row-null-marker-when-missing"}},
     }
     ghost = [
         {"when": "before", "at": "rows.append(row_data)", "loop": 0, "label": "remember", "do": ["let R0 = rows"]},
-        {"when": "before", "at": "rows.append(row_data)", "loop": 0, "label": "PDB-table-row-n-item-by-item",
-         "do": ["assert implies(not is_cif(df), items_of_pdb_row(trow(df, n), row_data))"]},
-        {"when": "before", "at": "rows.append(row_data)", "loop": 0, "label": "mmCIF-table-row-n-column-by-column",
+        {"when": "before", "at": "rows.append(row_data)", "loop": 0, "label": "PDB-table-row.group_PDB-is-the-record-name-21-items",
+         "do": ["assert implies(not is_cif(df), items_record_entity(trow(df, n), row_data))"]},
+        {"when": "before", "at": "rows.append(row_data)", "loop": 0, "label": "PDB-table-row.atom-name-residue-name-chain-in-label-and-auth-items",
+         "do": ["assert implies(not is_cif(df), items_names(trow(df, n), row_data))"]},
+        {"when": "before", "at": "rows.append(row_data)", "loop": 0, "label": "PDB-table-row.serial-residue-number-model-as-decimal-texts",
+         "do": ["assert implies(not is_cif(df), items_integers(trow(df, n), row_data))"]},
+        {"when": "before", "at": "rows.append(row_data)", "loop": 0, "label": "PDB-table-row.element-altLoc-iCode-or-a-null-marker",
+         "do": ["assert implies(not is_cif(df), items_optional_texts(trow(df, n), row_data))"]},
+        {"when": "before", "at": "rows.append(row_data)", "loop": 0, "label": "PDB-table-row.coordinates-3-decimals-occupancy-B-2-decimals",
+         "do": ["assert implies(not is_cif(df), items_reals(trow(df, n), row_data))"]},
+        {"when": "before", "at": "rows.append(row_data)", "loop": 0, "label": "PDB-table-row.charge-as-signed-integer-text-or-a-null-marker",
+         "do": ["assert implies(not is_cif(df), charge_item(cell(trow(df, n), 'charge'), row_data[15]))"]},
+        {"when": "before", "at": "rows.append(row_data)", "loop": 0, "label": "mmCIF-table-row.one-item-per-column-value-or-null-marker",
          "do": ["assert implies(is_cif(df), items_of_cif_row(df, trow(df, n), row_data))"]},
+        # the step of the two row invariants is proved from three facts only (earlier rows, this row, what append does)
+        {"when": "before", "at": "rows.append(row_data)", "loop": 0, "label": "earlier-rows-item-by-item",
+         "do": ["assert forall(lambda i: implies(0 <= i and i < n and not is_cif(df), items_of_pdb_row(trow(df, i), R0[i]))) "
+                "and forall(lambda i: implies(0 <= i and i < n and is_cif(df), items_of_cif_row(df, trow(df, i), R0[i])))"]},
+        {"when": "before", "at": "rows.append(row_data)", "loop": 0, "label": "this-row-item-by-item",
+         "do": ["assert implies(not is_cif(df), items_of_pdb_row(trow(df, n), row_data)) and implies(is_cif(df), items_of_cif_row(df, trow(df, n), row_data))"]},
         {"when": "after", "at": "rows.append(row_data)", "loop": 0, "label": "earlier-rows-kept",
          "do": ["assert len(rows) == n + 1 and rows[n] == row_data and forall(lambda i: implies(0 <= i and i < n, rows[i] == R0[i]))"]},
+        {"when": "after", "at": "rows.append(row_data)", "loop": 0, "label": "PDB-table-row-i-item-by-item",
+         "do": ["assert_last 3 forall(lambda i: implies(0 <= i and i < n + 1 and not is_cif(df), items_of_pdb_row(trow(df, i), rows[i])))"]},
+        {"when": "after", "at": "rows.append(row_data)", "loop": 0, "label": "mmCIF-table-row-i-column-by-column",
+         "do": ["assert_last 4 forall(lambda i: implies(0 <= i and i < n + 1 and is_cif(df), items_of_cif_row(df, trow(df, i), rows[i])))"]},
     ]
 
 
-CONTRACTS = {"write_cif@rows": write_cif_rows_c, "_pdb_charge_to_int_str": charge_to_int_c}
+# ------------------------------------------------------------------------------------------------ parse_cif_atoms: per-row decode
+# The mmCIF document is named by GHOST PARAMETERS (as in contracts/parser_cif_c.py): NB = number of data blocks the reader
+# returns, HAS = the first block has a category atom_site, ATTRS = its item names in file order, ROWS = its rows in file order.
+CLASSES["Adapter"] = {"kind": "object", "fields": {"tag": "int"}}
+CLASSES["TempFile"] = {"kind": "object", "fields": {"name": "str", "text": "str"}}
+# an open text file handed in by the caller (`with open(path) as f: parse_cif_atoms(f)`): not a str, not an io.StringIO; it has
+# the attribute `name` (its path) - the only thing the function uses of it
+CLASSES["NamedFile"] = {"kind": "object", "fields": {"name": "str"}, "isinstance": {"str": False, "_io.StringIO": False}}
+# an io.StringIO handed in by the caller: its whole text is read after seek(0)
+CLASSES["StringIn"] = {"kind": "object", "fields": {"text": "str"}, "isinstance": {"str": False, "_io.StringIO": True}}
+CLASSES["CifBlock"] = {"kind": "record", "fields": {"idx": "int"}}          # the idx-th data block of the document read
+CLASSES["Category"] = {"kind": "record", "fields": {"doc": "int"}}         # doc == 0: atom_site of the first block; else: some other category
+_DOC = {}
+
+
+def _doc(e, st=None):
+    need = ("NB", "HAS", "ATTRS", "ROWS")
+    if st is not None:
+        if any(n_ not in st.env for n_ in need):
+            raise Unsupported("the contract under verification does not declare the ghost document (NB, HAS, ATTRS, ROWS)")
+        _DOC[id(e)] = tuple(st.env[n_] for n_ in need)
+    return _DOC[id(e)]
+
+
+def _ext_adapter(e, args, kw, node, st):
+    """mmcif IoAdapterPy(): a new adapter object"""
+    if args or kw:
+        raise Unsupported("IoAdapterPy(...) with arguments")
+    return e.construct("Adapter", [], {"tag": 0}, node, st)
+
+
+def _ext_tempfile(e, args, kw, node, st):
+    """tempfile.NamedTemporaryFile(mode='w+', suffix=.., delete=..): a new, empty temporary text file with some name"""
+    if args or set(kw) - {"mode", "suffix", "delete"} or kw.get("mode") != "w+":
+        raise Unsupported("NamedTemporaryFile: only (mode='w+', suffix=.., delete=..)")
+    name = _z3.String(uid("tmpname"))
+    return e.construct("TempFile", [], {"name": name, "text": ""}, node, st)
+
+
+def _ext_tmp_enter(e, args, kw, node, st):
+    """with-protocol of the temporary file: __enter__ returns the file object"""
+    return args[0]
+
+
+def _ext_tmp_exit(e, args, kw, node, st):
+    """... and __exit__ closes it and does not swallow exceptions (returns False)"""
+    return False
+
+
+def _ext_tmp_write(e, args, kw, node, st):
+    """temp_file.write(s): s is appended to the file's text"""
+    f_, s = args
+    e.heap_write(st, f_, "text", e.concat_str([e.heap_read(st, f_, "text"), s]))
+    return _z3.Length(to_z3(s))
+
+
+_ext_tmp_write.writes = ["TempFile.text"]
+
+
+def _ext_readFile(e, args, kw, node, st):
+    """ASSUMED (the one statement about the mmcif reader): adapter.readFile(path) returns the list of the data blocks of the
+    document named by the contract's ghost parameters: NB blocks; the first one has a category atom_site iff HAS, with item
+    names ATTRS and rows ROWS.  Nothing is said about other categories / blocks, nor about how the text becomes the document."""
+    if len(args) != 2 or kw:
+        raise Unsupported("readFile(path) only")
+    nb = _doc(e, st)[0]
+    q = _z3.Int(uid("q"))
+    return VList(to_z3(nb), VRec("CifBlock", {"idx": _z3.Lambda([q], q)}), ("rec", "CifBlock"))
+
+
+def _ext_remove(e, args, kw, node, st):
+    """os.remove(path): deletes the file; no effect on anything the function reads afterwards (an OSError is not modelled)"""
+    return None
+
+
+def _ext_getObj(e, args, kw, node, st):
+    """block.getObj(name): the category of that name, None when the block has none - for the first block and 'atom_site'
+    the ghost document's (None iff not HAS); every other block / name: an unknown optional category"""
+    blk, name = args
+    nb, has, attrs, rows = _doc(e)
+    hit = AND(to_z3(blk.fields["idx"]) == 0, _zkey(name) == _z3.StringVal("atom_site"))
+    other_missing = e.ufun("cif_other_missing", _I, _S, _B)(to_z3(blk.fields["idx"]), _zkey(name))
+    return VOpt(_z3.If(hit, NOT(to_z3(has)), other_missing), VRec("Category", {"doc": _z3.If(hit, _z3.IntVal(0), _z3.IntVal(1))}))
+
+
+def _unknown_list(e, shape, nm):
+    from pyvc.values import fresh
+    return fresh(shape, uid(nm))
+
+
+def _ext_getAttributeList(e, args, kw, node, st):
+    """category.getAttributeList(): the item names in file order (ATTRS for the ghost document's atom_site)"""
+    L = _unknown_list(e, ("list", ("str",)), "other_attrs")
+    if st is not None:
+        st.assume(to_z3(L.length) >= 0)
+    return e.merge(to_z3(args[0].fields["doc"]) == 0, _doc(e)[2], L)
+
+
+def _ext_getRowList(e, args, kw, node, st):
+    """category.getRowList(): the rows in file order, each the list of its cell texts (ROWS for the ghost document's atom_site)"""
+    L = _unknown_list(e, ("list", ("list", ("str",))), "other_rows")
+    if st is not None:
+        st.assume(to_z3(L.length) >= 0)
+    return e.merge(to_z3(args[0].fields["doc"]) == 0, _doc(e)[3], L)
+
+
+def _ext_cat_len(e, args, kw, node, st):
+    """len(category) (mmcif DataCategory.__len__, which also decides its truth value): the number of rows"""
+    other = e.ufun("cif_other_len", _I, _I)(to_z3(args[0].fields["doc"]))
+    return _z3.If(to_z3(args[0].fields["doc"]) == 0, to_z3(_doc(e)[3].length), _z3.If(other >= 0, other, 0 - other))
+
+
+def _ext_dataframe(e, args, kw, node, st):
+    """pd.DataFrame() without arguments: some table (returned for a missing / empty atom_site; nothing is claimed about it)"""
+    if args or kw:
+        raise Unsupported("pd.DataFrame(...) with arguments")
+    return VRec("Frame", {"id": _z3.Int(uid("emptyframe")), "empty": True, "attrs": VRec("Attrs", {"format": _z3.String(uid("fmt"))}),
+                          "columns": VList(0, None, ("str",))})
+
+
+def _ext_sio_seek(e, args, kw, node, st):
+    """stringio.seek(0): the read position goes back to the start (only seek(0) is modelled)"""
+    if len(args) != 2 or kw or args[1] != 0:
+        raise Unsupported("StringIO.seek: only seek(0)")
+    return 0
+
+
+def _ext_sio_read(e, args, kw, node, st):
+    """stringio.read() right after seek(0): the whole text"""
+    if len(args) != 1 or kw:
+        raise Unsupported("StringIO.read(n)")
+    return e.heap_read(st, args[0], "text")
+
+
+def _ext_hasattr(e, args, kw, node, st):
+    """hasattr(obj, name) for an object of a class modelled by this sidecar and a constant name: True for a declared field"""
+    if len(args) != 2 or kw or not isinstance(args[0], VRef) or not isinstance(args[1], str):
+        raise Unsupported("hasattr: only (object of a sidecar class, constant name)")
+    if args[1] in e.classes[args[0].cls]["fields"]:
+        return True
+    raise Unsupported(f"hasattr({args[0].cls} object, {args[1]!r}): not a declared field")
+
+
+for _f in (_ext_sio_seek, _ext_sio_read, _ext_hasattr, _ext_tmp_enter, _ext_tmp_exit, _ext_readFile, _ext_remove, _ext_getObj, _ext_getAttributeList, _ext_getRowList, _ext_cat_len, _ext_dataframe):
+    _f.pure = True
+
+EXTERNALS.update({
+    "mmcif.io.IoAdapterPy.IoAdapterPy": _ext_adapter, "tempfile.NamedTemporaryFile": _ext_tempfile,
+    "TempFile.__enter__": _ext_tmp_enter, "TempFile.__exit__": _ext_tmp_exit, "TempFile.write": _ext_tmp_write,
+    "Adapter.readFile": _ext_readFile, "posix.remove": _ext_remove, "CifBlock.getObj": _ext_getObj,
+    "Category.getAttributeList": _ext_getAttributeList, "Category.getRowList": _ext_getRowList, "Category.__len__": _ext_cat_len,
+    "pandas.core.frame.DataFrame": _ext_dataframe, "builtins.hasattr": _ext_hasattr,
+    "StringIn.seek": _ext_sio_seek, "StringIn.read": _ext_sio_read,
+})
+
+
+@spec
+def none_if_null(s):
+    """an mmCIF cell text as a table value: None for the null markers '?' and '.', else the text"""
+    return ite(s == "?" or s == ".", None, s)
+
+
+@spec
+def distinct_names(A):
+    return forall(lambda k1, k2: implies(0 <= k1 and k1 < k2 and k2 < len(A), A[k1] != A[k2]))
+
+
+class parse_cif_atoms_decode_c:
+    """PREFIX contract: parse_cif_atoms(content: str) up to (not including) `df = pd.DataFrame(records)`.  The cut is reached
+    exactly when the document has a data block whose atom_site category exists and has at least one row; `records` then holds
+    one dict per atom_site row, in file order, whose entry for item name ATTRS[k] is cell k of that row (None for a null
+    marker) and which has no other keys."""
+    params = {"content": "str"}
+    ghost_params = {"NB": "int", "HAS": "bool", "ATTRS": "list[str]", "ROWS": "list[list[str]]"}
+    requires = ["NB >= 0 and len(ATTRS) >= 0 and len(ROWS) >= 0 and forall(lambda j: implies(0 <= j and j < len(ROWS), len(ROWS[j]) >= 0))",
+                # item names of one category are pairwise different (a CIF loop_ cannot name an item twice)
+                "distinct_names(ATTRS)"]
+    raises = {"IndexError": "NB == 0"}
+    raises_exact = ["IndexError"]
+    modifies = ["TempFile.text", "TempFile.name", "Adapter.tag"]
+    ensures = []
+    stop_before = "df = pd.DataFrame(records)"
+    stop_ensures = [
+        "HAS and len(ROWS) > 0",
+        "len(attributes) == len(ATTRS) and forall(lambda k: implies(0 <= k and k < len(ATTRS), attributes[k] == ATTRS[k]))",
+        "len(records) == len(ROWS)",
+        "forall(lambda j, k: implies(0 <= j and j < len(ROWS) and 0 <= k and k < len(ATTRS) and k < len(ROWS[j]), "
+        "ATTRS[k] in records[j] and records[j][ATTRS[k]] == none_if_null(ROWS[j][k])))",
+        "forall(lambda j, key: implies(0 <= j and j < len(ROWS) and key in records[j], "
+        "exists(lambda k: 0 <= k and k < len(ATTRS) and k < len(ROWS[j]) and ATTRS[k] == key)), sorts={'key': 'str'})",
+    ]
+    stop_ensures_labels = {0: "reached-only-with-a-non-empty-atom_site", 1: "item-names-are-the-category's",
+                           2: "one-record-per-atom_site-row", 3: "entry-of-item-k-is-cell-k-null-markers-None",
+                           4: "no-other-keys"}
+    locals = {"records": "list[dict[str,opt[str]]]", "record": "dict[str,opt[str]]"}
+    loops = {
+        0: {"index": "n", "inv": [
+            "n >= 0 and len(records) == n",
+            "forall(lambda j, k: implies(0 <= j and j < n and 0 <= k and k < len(ATTRS) and k < len(ROWS[j]), "
+            "ATTRS[k] in records[j] and records[j][ATTRS[k]] == none_if_null(ROWS[j][k])))",
+            "forall(lambda j, key: implies(0 <= j and j < n and key in records[j], "
+            "exists(lambda k: 0 <= k and k < len(ATTRS) and k < len(ROWS[j]) and ATTRS[k] == key)), sorts={'key': 'str'})",
+        ], "labels": {0: "one-record-per-atom_site-row-so-far", 1: "entry-of-item-k-is-cell-k-null-markers-None", 2: "no-other-keys"}},
+        1: {"index": "m", "inv": [
+            "m >= 0",
+            "forall(lambda k: implies(0 <= k and k < m, ATTRS[k] in record and record[ATTRS[k]] == none_if_null(ROWS[n][k])))",
+            "forall(lambda key: implies(key in record, exists(lambda k: 0 <= k and k < m and ATTRS[k] == key)), sorts={'key': 'str'})",
+        ], "labels": {0: "bookkeeping", 1: "entry-of-item-k-is-cell-k-null-markers-None", 2: "no-other-keys"}},
+    }
+    ghost = []
+
+
+class parse_cif_atoms_decode_file_c(parse_cif_atoms_decode_c):
+    """the same PREFIX contract for content given as an open text file with a name (third branch: the form in which
+    splitter / aligner / unifier call the function): the reader is handed content.name; no temporary file is involved"""
+    params = {"content": "NamedFile"}
+
+
+class parse_cif_atoms_decode_stringio_c(parse_cif_atoms_decode_c):
+    """the same PREFIX contract for content given as an io.StringIO (second branch: its text goes through a temporary file)"""
+    params = {"content": "StringIn"}
+
+
+# ------------------------------------------------------------------------------------------------ PDB table -> mmCIF items -> decode
+LEMMAS["fmt3_roundtrip"] = {
+    # ASSUMED (CPython float formatting and parsing): the 3-decimal text of a value within the PDB coordinate range is a float
+    # literal within half a unit of the last place of the value (and, being a number text, not a null marker)
+    "kind": "assumed-external", "params": ["x"], "shapes": ["real"], "requires": ["fits83(x)"],
+    "ensures": ["float_ok(fmt3(x))", "abs(float(fmt3(x)) - x) <= 0.0005", "not null_marker(fmt3(x))"]}
+LEMMAS["fmt2_roundtrip"] = {
+    "kind": "assumed-external", "params": ["x"], "shapes": ["real"], "requires": ["fits62(x)"],
+    "ensures": ["float_ok(fmt2(x))", "abs(float(fmt2(x)) - x) <= 0.005", "not null_marker(fmt2(x))"]}
+
+
+@spec
+def present_text_ok(c):
+    """an optional text cell that holds a value holds a non-empty text other than the null markers"""
+    return implies(not isna(c), cstr(c) != "" and not null_marker(cstr(c)))
+
+
+@spec
+def texts_survive_cif(r):
+    """the text cells of the PDB-format row r can be told from the mmCIF null markers"""
+    return (not null_marker(cstr(cell(r, "name"))) and not null_marker(cstr(cell(r, "resName"))) and not null_marker(cstr(cell(r, "chainID")))
+            and present_text_ok(cell(r, "altLoc")) and present_text_ok(cell(r, "iCode")) and present_text_ok(cell(r, "element"))
+            and present_text_ok(cell(r, "charge")))
+
+
+@spec
+def decoded_items(A, R, D):
+    """D is the record parse_cif_atoms@decode builds for the atom_site row R under the item names A (its clauses
+    entry-of-item-k-is-cell-k-null-markers-None for one row whose length is the number of item names)"""
+    return forall(lambda k: implies(0 <= k and k < len(A) and k < len(R), A[k] in D and D[A[k]] == none_if_null(R[k])))
+
+
+LEMMAS["pdb_row_through_cif"] = {
+    # cross path PDB -> mmCIF of the property, one row: r = a row of a PDB-format table within PDB limits, a = atom_pdb(r) the
+    # atom it stands for (spec of parser_v2_write_c), R = the atom_site row write_cif builds for it (stop-postcondition of
+    # write_cif@rows), A = the 21 item names, D = the record parse_cif_atoms builds from (A, R) (stop-postcondition of
+    # parse_cif_atoms@decode).  Then D holds a's fields under the mmCIF item names; numbers through int() / float() of the text
+    # (what pandas.to_numeric is taken to compute), the charge as the signed integer the PDB text stands for.
+    # Between R and D lies the mmcif library (writer, then reader): TRUSTED to hand the item names and cell texts through.
+    "kind": "smt", "params": ["r", "A", "R", "D"], "shapes": ["rec[Row]", "list[str]", "list[str]", "dict[str,opt[str]]"],
+    "requires": ["fits_pdb(atom_pdb(r))", "texts_survive_cif(r)", "is_pdb_items(A)", "items_of_pdb_row(r, R)", "decoded_items(A, R, D)"],
+    "ensures": [
+        "D['group_PDB'] == atom_pdb(r).record_name",
+        "D['id'] == str(atom_pdb(r).serial) and int(str(atom_pdb(r).serial)) == atom_pdb(r).serial",
+        "D['label_atom_id'] == atom_pdb(r).name and D['auth_atom_id'] == atom_pdb(r).name",
+        "D['label_alt_id'] == none_if_blank(atom_pdb(r).altLoc)",
+        "D['label_comp_id'] == atom_pdb(r).resName and D['auth_comp_id'] == atom_pdb(r).resName",
+        "D['label_asym_id'] == atom_pdb(r).chainID and D['auth_asym_id'] == atom_pdb(r).chainID",
+        "D['label_seq_id'] == str(atom_pdb(r).resSeq) and D['auth_seq_id'] == str(atom_pdb(r).resSeq) and int(str(atom_pdb(r).resSeq)) == atom_pdb(r).resSeq",
+        "D['pdbx_PDB_ins_code'] == none_if_blank(atom_pdb(r).iCode)",
+        "D['Cartn_x'] == fmt3(atom_pdb(r).x) and D['Cartn_y'] == fmt3(atom_pdb(r).y) and D['Cartn_z'] == fmt3(atom_pdb(r).z)",
+        "float_ok(fmt3(atom_pdb(r).x)) and float_ok(fmt3(atom_pdb(r).y)) and float_ok(fmt3(atom_pdb(r).z)) "
+        "and abs(float(fmt3(atom_pdb(r).x)) - atom_pdb(r).x) <= 0.0005 and abs(float(fmt3(atom_pdb(r).y)) - atom_pdb(r).y) <= 0.0005 "
+        "and abs(float(fmt3(atom_pdb(r).z)) - atom_pdb(r).z) <= 0.0005",
+        "D['occupancy'] == fmt2(atom_pdb(r).occupancy) and D['B_iso_or_equiv'] == fmt2(atom_pdb(r).tempFactor)",
+        "float_ok(fmt2(atom_pdb(r).occupancy)) and float_ok(fmt2(atom_pdb(r).tempFactor)) "
+        "and abs(float(fmt2(atom_pdb(r).occupancy)) - atom_pdb(r).occupancy) <= 0.005 and abs(float(fmt2(atom_pdb(r).tempFactor)) - atom_pdb(r).tempFactor) <= 0.005",
+        "D['type_symbol'] == none_if_blank(atom_pdb(r).element)",
+        "implies(atom_pdb(r).charge == '', D['pdbx_formal_charge'] is None)",
+        "implies(atom_pdb(r).charge != '', D['pdbx_formal_charge'] == signed_text(atom_pdb(r).charge) and matches(signed_text(atom_pdb(r).charge), SIGNED_DIGIT))",
+        "implies(atom_pdb(r).charge != '' and atom_pdb(r).charge[1:2] == '-', int(signed_text(atom_pdb(r).charge)) == 0 - int(atom_pdb(r).charge[0:1]))",
+        "implies(atom_pdb(r).charge != '' and atom_pdb(r).charge[1:2] != '-', int(signed_text(atom_pdb(r).charge)) == int(atom_pdb(r).charge[0:1]))",
+        "D['pdbx_PDB_model_num'] == str(atom_pdb(r).model)",
+    ],
+    "steps": ["use int_of_str(atom_pdb(r).serial)", "use int_of_str(atom_pdb(r).resSeq)",
+              "use fmt3_roundtrip(atom_pdb(r).x)", "use fmt3_roundtrip(atom_pdb(r).y)", "use fmt3_roundtrip(atom_pdb(r).z)",
+              "use fmt2_roundtrip(atom_pdb(r).occupancy)", "use fmt2_roundtrip(atom_pdb(r).tempFactor)",
+              "use strip_digit_sign(atom_pdb(r).charge) when atom_pdb(r).charge != ''",
+              "use signed_text_value(atom_pdb(r).charge) when atom_pdb(r).charge != ''",
+              ] + [f"assert '{n_}' in D and D['{n_}'] == none_if_null(R[{k_}])" for k_, n_ in enumerate(PDB_ITEMS)]}
+
+
+# ---- the table parse_cif_atoms builds from the records (pandas, TRUSTED) as write_pdb reads it
+@spec
+def text_cell_holds(df2, r2, D, K):
+    """ASSUMED effect of pd.DataFrame(records) + astype('category') on a text item K: the column exists; the cell is missing
+    exactly when the record holds None, else its text is the record's"""
+    return has(df2, K) and isna(cell(r2, K)) == (D[K] is None) and implies(not (D[K] is None), cstr(cell(r2, K)) == D[K])
+
+
+@spec
+def int_cell_holds(df2, r2, D, K):
+    """... + pd.to_numeric(..).astype('Int64') on an integer item K whose text (if any) is an integer literal: missing exactly
+    when None, else int() of the cell is int() of the text and str() of the cell is the decimal text of that integer"""
+    return (has(df2, K) and isna(cell(r2, K)) == (D[K] is None)
+            and implies(not (D[K] is None), cint_ok(cell(r2, K)) and cint(cell(r2, K)) == int(some(D[K])) and cstr(cell(r2, K)) == str(int(some(D[K])))))
+
+
+@spec
+def float_cell_holds(df2, r2, D, K):
+    """... + pd.to_numeric on a float item K whose text is a float literal: float() of the cell is float() of the text"""
+    return has(df2, K) and implies(not (D[K] is None) and float_ok(some(D[K])), cfloat_ok(cell(r2, K)) and cfloat(cell(r2, K)) == float(some(D[K])))
+
+
+@spec
+def int_of_text_cell(c):
+    """int(x) for a cell x holding a str: int() of that text (raises unless the text is an integer literal)"""
+    return implies(int_ok(cstr(c)), cint_ok(c) and cint(c) == int(cstr(c)))
+
+
+@spec
+def frame_holds_record(df2, r2, D):
+    """row r2 of the mmCIF-format table df2 is what parse_cif_atoms's pandas tail (DataFrame construction, dtype conversion:
+    TRUSTED, not verified) makes of the record D - for the 21 items write_cif writes for a PDB-format table"""
+    return (text_cell_holds(df2, r2, D, "group_PDB") and is_str(cell(r2, "group_PDB")) and text_cell_holds(df2, r2, D, "id")
+            and text_cell_holds(df2, r2, D, "type_symbol") and text_cell_holds(df2, r2, D, "label_atom_id")
+            and text_cell_holds(df2, r2, D, "label_alt_id") and text_cell_holds(df2, r2, D, "label_comp_id")
+            and text_cell_holds(df2, r2, D, "label_asym_id") and text_cell_holds(df2, r2, D, "pdbx_PDB_ins_code")
+            and text_cell_holds(df2, r2, D, "auth_seq_id") and text_cell_holds(df2, r2, D, "auth_comp_id")
+            and text_cell_holds(df2, r2, D, "auth_asym_id") and text_cell_holds(df2, r2, D, "auth_atom_id")
+            and int_cell_holds(df2, r2, D, "label_seq_id") and int_cell_holds(df2, r2, D, "pdbx_formal_charge")
+            and int_cell_holds(df2, r2, D, "pdbx_PDB_model_num")
+            and float_cell_holds(df2, r2, D, "Cartn_x") and float_cell_holds(df2, r2, D, "Cartn_y") and float_cell_holds(df2, r2, D, "Cartn_z")
+            and float_cell_holds(df2, r2, D, "occupancy") and float_cell_holds(df2, r2, D, "B_iso_or_equiv")
+            and int_of_text_cell(cell(r2, "id")) and int_of_text_cell(cell(r2, "auth_seq_id")))
+
+
+LEMMAS["signed_digit_canonical"] = {
+    # the decimal text of an integer in -9..9 is an optionally negated digit that spells it
+    "kind": "smt", "params": ["v"], "shapes": ["int"], "requires": ["0 - 9 <= v and v <= 9"],
+    "ensures": ["matches(str(v), SIGNED_DIGIT)", "int(str(v)) == v"],
+    "steps": ["assert implies(v >= 0, len(str(v)) == 1)", "assert implies(v < 0, str(v) == '-' + str(0 - v) and len(str(0 - v)) == 1)", "use int_of_str(v)"]}
+
+LEMMAS["int_ok_of_str"] = {
+    # the decimal text of an integer is an integer literal
+    "kind": "smt", "params": ["n"], "shapes": ["int"], "requires": ["0 - 99999 <= n and n <= 99999"], "ensures": ["int_ok(str(n))"],
+    "steps": ["assert implies(n >= 0, matches(str(n), '[0-9]+'))",
+              "assert implies(n < 0, str(n) == '-' + str(0 - n) and matches(str(0 - n), '[0-9]+'))",
+              "assert implies(n < 0, matches(str(n), '-[0-9]+'))"]}
+
+LEMMAS["charge_text_back"] = {
+    # a PDB charge text t (digit, sign) written as signed_text(t), read as an integer and printed again (what the Int64 column
+    # of the mmCIF-format table gives write_pdb): an optionally negated digit spelling the integer t stands for
+    "kind": "smt", "params": ["t"], "shapes": ["str"], "requires": ["matches(t, DIGIT_SIGN)"],
+    "ensures": ["matches(str(int(signed_text(t))), SIGNED_DIGIT)",
+                "implies(t[1:2] == '-', int(str(int(signed_text(t)))) == 0 - int(t[0:1])) and implies(t[1:2] != '-', int(str(int(signed_text(t)))) == int(t[0:1]))"],
+    "steps": ["use signed_text_value(t)", "use signed_digit_value(signed_text(t))", "use signed_digit_canonical(int(signed_text(t)))"]}
+
+LEMMAS["pdb_atom_back_from_cif"] = {
+    # cross path PDB -> mmCIF -> (table) of the property at the level of the atom write_pdb will lay out: a = atom_pdb(r) the atom
+    # of row r of the PDB-format table, b = atom_cif(df2, r2) the atom write_pdb reads from row r2 of the mmCIF-format table that
+    # parse_cif_atoms built from the record D of r's atom_site row.  b has a's record name, serial, atom name, altLoc, residue
+    # name, chain, residue number, insertion code, element and model; coordinates within 0.0005, occupancy / B within 0.005; the
+    # charge as the signed-integer text of a's PDB charge (the form _format_pdb_atom_line@signed_charge lays out as digit, sign);
+    # and row r2 is readable by write_pdb (its precondition `readable`).
+    "kind": "smt", "params": ["r", "A", "R", "D", "df2", "r2"],
+    "shapes": ["rec[Row]", "list[str]", "list[str]", "dict[str,opt[str]]", "rec[Frame]", "rec[Row]"],
+    "requires": ["fits_pdb(atom_pdb(r))", "0 <= atom_pdb(r).model and atom_pdb(r).model <= 9999", "texts_survive_cif(r)", "is_pdb_items(A)",
+                 "items_of_pdb_row(r, R)", "decoded_items(A, R, D)", "r2.df == df2.id", "frame_holds_record(df2, r2, D)"],
+    "ensures": [
+        "atom_cif(df2, r2).record_name == atom_pdb(r).record_name and atom_cif(df2, r2).serial == atom_pdb(r).serial",
+        "atom_cif(df2, r2).name == atom_pdb(r).name and atom_cif(df2, r2).altLoc == atom_pdb(r).altLoc and atom_cif(df2, r2).resName == atom_pdb(r).resName",
+        "atom_cif(df2, r2).chainID == atom_pdb(r).chainID and atom_cif(df2, r2).resSeq == atom_pdb(r).resSeq and atom_cif(df2, r2).iCode == atom_pdb(r).iCode",
+        "abs(atom_cif(df2, r2).x - atom_pdb(r).x) <= 0.0005 and abs(atom_cif(df2, r2).y - atom_pdb(r).y) <= 0.0005 and abs(atom_cif(df2, r2).z - atom_pdb(r).z) <= 0.0005",
+        "abs(atom_cif(df2, r2).occupancy - atom_pdb(r).occupancy) <= 0.005 and abs(atom_cif(df2, r2).tempFactor - atom_pdb(r).tempFactor) <= 0.005",
+        "atom_cif(df2, r2).element == atom_pdb(r).element and atom_cif(df2, r2).model == atom_pdb(r).model",
+        "implies(atom_pdb(r).charge == '', atom_cif(df2, r2).charge == '')",
+        "implies(atom_pdb(r).charge != '', matches(atom_cif(df2, r2).charge, SIGNED_DIGIT))",
+        "implies(atom_pdb(r).charge != '' and atom_pdb(r).charge[1:2] == '-', int(atom_cif(df2, r2).charge) == 0 - int(atom_pdb(r).charge[0:1]))",
+        "implies(atom_pdb(r).charge != '' and atom_pdb(r).charge[1:2] != '-', int(atom_cif(df2, r2).charge) == int(atom_pdb(r).charge[0:1]))",
+        "readable_cif(df2, r2)",
+    ],
+    "steps": ["use pdb_row_through_cif(r, A, R, D)",
+              "use int_of_str(atom_pdb(r).model)",
+              "use charge_text_back(atom_pdb(r).charge) when atom_pdb(r).charge != ''",
+              "use int_ok_of_str(atom_pdb(r).serial)", "use int_ok_of_str(atom_pdb(r).resSeq)",
+              "assert implies(atom_pdb(r).charge != '', not (D['pdbx_formal_charge'] is None) and some(D['pdbx_formal_charge']) == signed_text(atom_pdb(r).charge))",
+              "assert implies(atom_pdb(r).charge != '', atom_cif(df2, r2).charge == str(int(signed_text(atom_pdb(r).charge))))"]}
+
+
+LEMMAS["cif_row_through_cif"] = {
+    # path mmCIF -> mmCIF of the property, one row: r = row i of a table in the mmCIF naming, R = the atom_site row write_cif
+    # builds for it (stop-postcondition mmCIF-table-row-i-column-by-column of write_cif@rows, item names = df.columns), D = the
+    # record parse_cif_atoms builds from (df.columns, R).  Then every column comes back: None for a missing value, else the
+    # cell's text - provided a present text is not itself a null marker.  (mmcif writer + reader between R and D: TRUSTED.)
+    "kind": "smt", "params": ["df", "i", "R", "D"], "shapes": ["rec[Frame]", "int", "list[str]", "dict[str,opt[str]]"],
+    "requires": ["len(df.columns) >= 0", "items_of_cif_row(df, trow(df, i), R)", "decoded_items(df.columns, R, D)",
+                 "forall(lambda k: implies(0 <= k and k < len(df.columns), implies(not isna(cell(trow(df, i), df.columns[k])), not null_marker(cstr(cell(trow(df, i), df.columns[k]))))))"],
+    "ensures": ["forall(lambda k: implies(0 <= k and k < len(df.columns), df.columns[k] in D "
+                "and D[df.columns[k]] == ite(isna(cell(trow(df, i), df.columns[k])), None, cstr(cell(trow(df, i), df.columns[k])))))"]}
+
+
+CONTRACTS = {"write_cif@rows": write_cif_rows_c, "_pdb_charge_to_int_str": charge_to_int_c, "parse_cif_atoms@decode": parse_cif_atoms_decode_c,
+             "parse_cif_atoms@decode_file": parse_cif_atoms_decode_file_c,
+             "parse_cif_atoms@decode_stringio": parse_cif_atoms_decode_stringio_c}
